@@ -1,0 +1,73 @@
+//go:build verif
+
+// Machine-checked contracts for package scheduler (comment-only; read by
+// /verif/govc, never compiled into the program).
+
+package scheduler
+
+// ---- ghost symbols of the cycle-check proof (universally quantified: every
+// ---- contract below holds for ALL interpretations satisfying its premise)
+//@ fun rank(n string) int
+//@ fun reach(a string, b string) bool
+//@ fun reachP(a string, b string) bool
+//@ fun closedQ(a string, b string) bool
+
+// rankOK: rank is a topological numbering of the "from" edges (u -> from[u][j])
+//@ pred rankOK(g *ExecutionGraph) := forall u string, j int :: 0 <= j && j < len(g.from[u]) ==> rank(u) < rank(g.from[u][j])
+// unfoldR: reach is reflexive; reach / reachP are contained in what the edges allow (unfolding)
+//@ pred unfoldR(g *ExecutionGraph) := (forall a string :: reach(a, a)) && (forall a string, v string :: reach(a, v) ==> a == v || (exists j int :: 0 <= j && j < len(g.from[a]) && reach(g.from[a][j], v))) && (forall a string, v string :: reachP(a, v) ==> (exists j int :: 0 <= j && j < len(g.from[a]) && reach(g.from[a][j], v)))
+// closedG: closedQ contains every edge and is transitive
+//@ pred closedG(g *ExecutionGraph) := (forall a string, j int :: 0 <= j && j < len(g.from[a]) ==> closedQ(a, g.from[a][j])) && (forall a string, b string, c string :: closedQ(a, b) && closedQ(b, c) ==> closedQ(a, c))
+
+// the sentinel error is created by errors.New at package initialisation and never assigned again
+//@ globalinv #sentinel ErrCycleDetected != nil
+
+//@ func (*ExecutionGraph).cycleDfs
+//@   requires g != nil && visited != nil
+//@   modifies contents(visited)
+//@   ensures #err-identity result == nil || result == ErrCycleDetected
+//@   ensures #restores result == nil ==> (forall v string :: visited[v] == old(visited[v]))
+//@   ensures #A.acyclic-accepts old(rankOK(g) && (forall v string :: visited[v] ==> rank(v) < rank(t))) ==> result == nil
+//@   ensures #B.nil-means-clean old(unfoldR(g)) && result == nil ==> (forall v string :: reach(t, v) ==> !old(visited[v]) && !reachP(v, v))
+//@   ensures #C.error-has-witness old(closedG(g) && (forall v string :: visited[v] ==> closedQ(v, t))) && result != nil ==> (exists w string :: closedQ(w, w))
+//@   loop 1 "range g.from[t]"
+//@     invariant #path forall v string :: visited[v] == (old(visited[v]) || v == t)
+//@     invariant #not-on-path !old(visited[t])
+//@     invariant #B.clean old(unfoldR(g)) ==> (forall j int, v string :: 0 <= j && j <= rangeindex && reach(g.from[t][j], v) ==> !old(visited[v]) && v != t && !reachP(v, v))
+
+// ---- graph construction (C01: edges are exactly depends_on; C05: cycle check)
+//@ pred wfG(g *ExecutionGraph) := g != nil && g.nodes != nil && g.from != nil && g.to != nil && g.from != g.to
+
+//@ func (*ExecutionGraph).addEdge
+//@   requires wfG(g)
+//@   modifies g.from[from], g.to[to]
+//@   ensures #err-identity result == nil || result == ErrCycleDetected
+//@   ensures #F.from-appended len(g.from[from]) == old(len(g.from[from])) + 1 && g.from[from][old(len(g.from[from]))] == to && (forall j int :: 0 <= j && j < old(len(g.from[from])) ==> g.from[from][j] == old(g.from[from][j]))
+//@   ensures #T.to-appended len(g.to[to]) == old(len(g.to[to])) + 1 && g.to[to][old(len(g.to[to]))] == from && (forall j int :: 0 <= j && j < old(len(g.to[to])) ==> g.to[to][j] == old(g.to[to][j]))
+//@   ensures #A.acyclic-accepts rankOK(g) ==> result == nil
+//@   ensures #B.nil-means-clean unfoldR(g) && result == nil ==> !reachP(to, to)
+//@   ensures #C.error-has-witness closedG(g) && result != nil ==> (exists w string :: closedQ(w, w))
+
+//@ func (*ExecutionGraph).AddStage
+//@   requires wfG(g) && stage != nil
+//@   modifies g.nodes[stage.Name], contents(g.from), contents(g.to)
+//@   ensures #err-identity result == nil || result == ErrCycleDetected
+//@   ensures #node g.nodes[stage.Name] == stage && stage.Name in g.nodes
+//@   ensures #T.to-edges-len result == nil ==> len(g.to[stage.Name]) == old(len(g.to[stage.Name])) + len(stage.DependsOn)
+//@   ensures #T.to-edges-old result == nil ==> (forall j int :: 0 <= j && j < old(len(g.to[stage.Name])) ==> g.to[stage.Name][j] == old(g.to[stage.Name][j]))
+//@   ensures #T.to-edges-new result == nil ==> (forall i int :: old(len(g.to[stage.Name])) <= i && i < len(g.to[stage.Name]) ==> g.to[stage.Name][i] == stage.DependsOn[i - old(len(g.to[stage.Name]))])
+//@   ensures #T.to-others forall n string :: n != stage.Name ==> len(g.to[n]) == old(len(g.to[n])) && (forall j int :: 0 <= j && j < len(g.to[n]) ==> g.to[n][j] == old(g.to[n][j]))
+//@   ensures #F.from-edges forall d string :: len(g.from[d]) >= old(len(g.from[d])) && (forall j int :: 0 <= j && j < old(len(g.from[d])) ==> g.from[d][j] == old(g.from[d][j])) && (forall j int :: old(len(g.from[d])) <= j && j < len(g.from[d]) ==> g.from[d][j] == stage.Name)
+//@   ensures #F.from-exact result == nil ==> (forall d string :: len(g.from[d]) > old(len(g.from[d])) <==> (exists j int :: 0 <= j && j < len(stage.DependsOn) && stage.DependsOn[j] == d))
+//@   ensures #A.acyclic-accepts rankOK(g) ==> result == nil
+//@   ensures #B.nil-means-clean len(stage.DependsOn) > 0 && unfoldR(g) && result == nil ==> !reachP(stage.Name, stage.Name)
+//@   ensures #C.error-has-witness closedG(g) && result != nil ==> (exists w string :: closedQ(w, w))
+//@   loop 1 "range stage.DependsOn"
+//@     invariant #same-stage stage == stage0 && g == g0 && wfG(g)
+//@     invariant #T.to-len len(g.to[stage.Name]) == old(len(g.to[stage.Name])) + rangeindex + 1
+//@     invariant #T.to-old forall j int :: 0 <= j && j < old(len(g.to[stage.Name])) ==> g.to[stage.Name][j] == old(g.to[stage.Name][j])
+//@     invariant #T.to-new forall i int :: old(len(g.to[stage.Name])) <= i && i < len(g.to[stage.Name]) ==> g.to[stage.Name][i] == stage.DependsOn[i - old(len(g.to[stage.Name]))]
+//@     invariant #T.to-others forall n string :: n != stage.Name ==> len(g.to[n]) == old(len(g.to[n])) && (forall j int :: 0 <= j && j < len(g.to[n]) ==> g.to[n][j] == old(g.to[n][j]))
+//@     invariant #F.from-edges forall d string :: len(g.from[d]) >= old(len(g.from[d])) && (forall j int :: 0 <= j && j < old(len(g.from[d])) ==> g.from[d][j] == old(g.from[d][j])) && (forall j int :: old(len(g.from[d])) <= j && j < len(g.from[d]) ==> g.from[d][j] == stage.Name)
+//@     invariant #F.from-exact forall d string :: len(g.from[d]) > old(len(g.from[d])) <==> (exists j int :: 0 <= j && j <= rangeindex && stage.DependsOn[j] == d)
+//@     invariant #B.clean rangeindex >= 0 && unfoldR(g) ==> !reachP(stage.Name, stage.Name)
